@@ -15,7 +15,7 @@ RULE = (
     "Hypothesis draws a notes directory (.zo / .zot / .zoq / other files in 0-2 sub-directories), "
     "a page A (optionally in a sub-directory, given with or without the .zo suffix), a fresh name B in "
     "an existing directory, and plants in every file lines mixing true links [[A]] / [[A#anchor]] "
-    "(also inside A itself, adjacent to punctuation, several per line) with decoys whose names contain, "
+    "(also inside A itself, adjacent to punctuation, several per line, in files whose last line has no newline) with decoys whose names contain, "
     "extend, prefix, suffix or case-vary A ([[Ax]], [[xA]], [[A/x]], [[x/A]], [[A.x]], [[A_]], [#A], [^A], "
     "bare A, [[B]]).  Oracle: a token-level rewrite model (scan for [[target]], split at '#', rewrite iff "
     "base == A) gives the expected bytes of every file; A.zo must be gone, B.zo must hold A's rewritten "
@@ -28,6 +28,8 @@ ASSUMPTIONS = [
     "LF line endings; B does not exist yet and its directory does",
     "malformed bracket runs such as '[[A]' without the second ']' are not links and are not generated",
 ]
+
+P_MARK = "#" * 32
 
 _ID = st.text("abcdefghijklmnopqrstuvwxyz", min_size=1, max_size=1).flatmap(
     lambda c: st.text("abcdefghijklmnopqrstuvwxyz0123456789_", max_size=4).map(lambda r: c + r))
@@ -89,7 +91,14 @@ def _case(draw):
             if ln.startswith("# "):
                 ln = "- " + ln[2:]
             fixed.append(ln)
-        return head + "\n\n" + "\n".join(fixed) + ("\n" if fixed else "")
+        text = head + "\n\n" + "\n".join(fixed) + ("\n" if fixed else "")
+        if draw(st.integers(0, 3)) == 0:
+            # last line without newline: a page may end in a section header, a query page / template in anything
+            if ext == "zo":
+                text += P_MARK + " Links [[%s]] [[%sx]]" % (a, a) if draw(st.booleans()) else P_MARK + " End"
+            else:
+                text = text.rstrip("\n") if text.strip("\n") else text
+        return text
 
     files = {a + ".zo": content("zo")}
     taken = {a + ".zo", b + ".zo"}
@@ -214,13 +223,15 @@ def check(case, rec: Rec) -> None:
         rec.label("moved-directory")
     if (a + ".zo") in files_with_true:
         rec.label("self-link")
+    if any(not t.endswith("\n") for r_, t in files.items() if r_ in files_with_true):
+        rec.label("rewritten-file-without-final-newline")
     nonzo = [f for f in files_with_true if not f.endswith(".zo")]
     if nonzo:
         rec.label("true-link-in-zot/zoq")
     rec.nontrivial = n_true >= 1 and n_dec >= 2 and len(files) >= 2 and bool(nonzo or len(files_with_true) >= 2)
 
 
-REQUIRED_LABELS = {"self-link": 0.05, "true-link-in-zot/zoq": 0.05, "A-in-subdir": 0.05}
+REQUIRED_LABELS = {"rewritten-file-without-final-newline": 0.05, "self-link": 0.05, "true-link-in-zot/zoq": 0.05, "A-in-subdir": 0.05}
 
 
 def parts(tier):
